@@ -10,6 +10,9 @@
 //	              HashLookup.GetHashKey vs. Equals on typed values
 //	              → Gms/Generated/C01.lean
 //	c01 run       (a) checkProperty unit correspondence (real memo.checkProperty vs. the Lean model);
+//	              (a') conflict-detection unit correspondence `jcd` (conflict.go): the REAL edge.calcTES /
+//	              edge.applicable on generated left-deep inner chains and plan trees vs. the Lean model
+//	              Gms.JoinConflict (TES, conflict rules, number of plan nodes that get each conjunct);
 //	              (b) corpus: one witness per known finding, run under the configuration that shows it;
 //	              (c) engine level: generated databases (PK / UNIQUE / secondary / composite indexes;
 //	              every third database is made for merge / lookup / hash joins: indexed join columns,
@@ -736,6 +739,7 @@ type qcase struct {
 	tys  []sqlgen.Ty
 	kind string
 	keq  *keqInfo // keq stream: the key kinds of the database (nil elsewhere)
+	db   *sqlgen.Db // the database the term is over (region inner_conjunct_lost_by_conflict_rule: column → table)
 }
 
 func (x *gen) query(thorough bool, mixed bool) qcase {
@@ -913,7 +917,35 @@ func corpus() []witness {
 	}}
 	q6 := sqlgen.Join("inner", sqlgen.Bin("and", sqlgen.Cmp("nseq", c(1), c(5)), sqlgen.Cmp("eq", c(3), c(7))), sqlgen.TableQ(0), sqlgen.TableQ(0))
 	iiii := []sqlgen.Ty{sqlgen.TInt, sqlgen.TInt, sqlgen.TInt, sqlgen.TInt}
+	// (7) inner_conjunct_lost_by_conflict_rule: a four-table chain of inner joins whose last ON is
+	//   s3.c0 = s4.c0 AND s4.c0 > s1.c0. The edge of `s4.c0 > s1.c0` gets the conflict rule {s3} → {s2}
+	// (calcTES: assoc with the edge s2.c0 = s3.c0 would "estrange" s1); the equalities make
+	// ensureClosure add s1.c0 = s3.c0, so {s1,s3,s4} is joined without s2 — the rule keeps the
+	// conjunct out of that join, and above it both of its tables are on one side. The default plan
+	// LookupJoin(InnerJoin(s4, InnerJoin(s3, s1)), s2) returns (0,0,0,0) although 0 > 0 is false.
+	i1 := []sqlgen.Ty{sqlgen.TInt}
+	db7 := &sqlgen.Db{Tables: []*sqlgen.Table{
+		{Tys: i1, NotNull: []bool{true}, Extra: ", PRIMARY KEY (c0)", Rows: [][]sqlgen.Value{iv(-2), iv(4), iv(-1), iv(0)}},
+		{Tys: i1, NotNull: []bool{true}, Extra: ", UNIQUE KEY u0 (c0)", Rows: [][]sqlgen.Value{iv(0)}},
+	}}
+	q7 := sqlgen.Join("inner", sqlgen.Bin("and", sqlgen.Cmp("eq", c(2), c(3)), sqlgen.Cmp("gt", c(3), c(0))),
+		sqlgen.Join("inner", sqlgen.Cmp("eq", c(1), c(2)),
+			sqlgen.Join("inner", sqlgen.Cmp("eq", c(1), c(0)), sqlgen.TableQ(1), sqlgen.TableQ(0)), sqlgen.TableQ(1)), sqlgen.TableQ(1))
+	// (8) left_join_replaced_by_inner_join: the equalities s4.c0 = s2.c0 AND s3.c0 = s4.c0 above the
+	// LEFT JOIN make ensureClosure derive s2.c0 = s3.c0, registered as an inner edge of the LEFT JOIN's
+	// operator; under some costs (random coster 13) addPlans joins s2 and s3 as an INNER join on that
+	// edge alone: the LEFT JOIN's ON (never true here: s3.c0 > s3.c0) is gone and rows come out.
+	db8 := &sqlgen.Db{Tables: []*sqlgen.Table{
+		{Tys: i1, NotNull: []bool{false}, Rows: [][]sqlgen.Value{iv(-1), iv(-1), iv(-2), iv(-1)}},
+		{Tys: i1, NotNull: []bool{false}, Extra: ", UNIQUE KEY u0 (c0)", Rows: [][]sqlgen.Value{iv(-1), iv(nil)}},
+	}}
+	q8 := sqlgen.Filter(sqlgen.Cmp("le", sqlgen.Lit(sqlgen.Int(-1)), c(2)),
+		sqlgen.Join("inner", sqlgen.Bin("and", sqlgen.Cmp("eq", c(3), c(1)), sqlgen.Cmp("eq", c(2), c(3))),
+			sqlgen.Join("left", sqlgen.Bin("and", sqlgen.Cmp("nseq", c(1), c(2)), sqlgen.Cmp("gt", c(2), c(2))),
+				sqlgen.Join("inner", sqlgen.Lit(sqlgen.Int(1)), sqlgen.TableQ(1), sqlgen.TableQ(0)), sqlgen.TableQ(1)), sqlgen.TableQ(0)))
 	return []witness{
+		{db: db8, qc: qcase{q: q8, tys: iiii, kind: "witness"}, cfgs: []config{{name: "witness:coster", coster: 13}}, repeat: 1},
+		{db: db7, qc: qcase{q: q7, tys: iiii, kind: "witness"}, cfgs: []config{{name: "witness:default"}}, repeat: 1},
 		{db: db6, qc: qcase{q: q6, tys: append(append([]sqlgen.Ty{}, iiii...), iiii...), kind: "witness"}, cfgs: []config{{name: "witness:lookup", hint: "LOOKUP_JOIN(s1,s2)"}}, repeat: 1},
 		{db: db5, qc: qcase{q: q5, tys: ii, kind: "witness"}, cfgs: []config{{name: "witness:default"}}, repeat: 1},
 		{db: db3, qc: qcase{q: q3, tys: iiii, kind: "witness"}, cfgs: []config{{name: "witness:merge", hint: "MERGE_JOIN(s1,s2)"}}, repeat: 1},
@@ -1059,6 +1091,13 @@ func run(a hx.RunArgs) error {
 	r := hx.NewRand(a.Seed).Fork()
 
 	unitCases(out)
+	// unit correspondence of the conflict-detection model (Gms.JoinConflict) with the real calcTES /
+	// applicable on generated chains and plan trees (own PRNG)
+	nJcd := 3000
+	if a.Thorough {
+		nJcd = 30000
+	}
+	jcdCases(out, hx.NewRand(a.Seed*1000003+0xc03).Fork(), nJcd)
 
 	nDb, perDb := 40, 6
 	if a.Thorough {
@@ -1083,6 +1122,7 @@ func run(a hx.RunArgs) error {
 		for _, m := range aliasRe.FindAllStringSubmatch(text, -1) {
 			aliases = append(aliases, m[1])
 		}
+		allAliases := aliases
 		if len(aliases) > 4 {
 			aliases = aliases[:4]
 		}
@@ -1122,6 +1162,12 @@ func run(a hx.RunArgs) error {
 			if ci == 0 {
 				defPlan = pt
 			}
+			// the chain position of every leaf of the plan (pre-order)
+			leaves := planLeaves(pt, allAliases)
+			var leafS []string
+			for _, l := range leaves {
+				leafS = append(leafS, fmt.Sprint(l))
+			}
 			shape := strings.Join(ops, "+")
 			shapes[shape]++
 			for _, o := range ops {
@@ -1132,8 +1178,8 @@ func run(a hx.RunArgs) error {
 			if hasOp(ops, "Idx") {
 				out.Stat("plan:uses-index")
 			}
-			payload := fmt.Sprintf("(c01 (ordered 0) %s (q %s) (kind %s) (cfg %s) (plan %s) (obs %s) (sql %s) %s)", dbS, qc.q.Sexp(), qc.kind,
-				hx.HexS(c.name), strings.Join(ops, " "), hx.HexS(obs), hx.HexS(stmt), setupS)
+			payload := fmt.Sprintf("(c01 (ordered 0) %s (q %s) (kind %s) (cfg %s) (plan %s) (leaves %s) (obs %s) (sql %s) %s)", dbS, qc.q.Sexp(), qc.kind,
+				hx.HexS(c.name), strings.Join(ops, " "), strings.Join(leafS, " "), hx.HexS(obs), hx.HexS(stmt), setupS)
 			nontrivial := pt != defPlan && len(res.Rows) > 0
 			id := out.Case(payload, obs, nontrivial)
 			out.Stat("cases")
@@ -1143,11 +1189,11 @@ func run(a hx.RunArgs) error {
 				out.Stat("engine:" + res.Class())
 			}
 			if firstID == "" {
-				firstRegion = region(qc, ops, hasNull)
+				firstRegion = region(qc, ops, leaves, hasNull)
 				firstObs, firstID, firstCfg = obs, id, c.name
 			} else if obs != firstObs {
 				// model-free oracle: two plans of one query disagree
-				out.OracleFail(id, worst(firstRegion, region(qc, ops, hasNull)), fmt.Sprintf("plan under %q returns %s, plan under %q (case %s) returns %s: %s", c.name, obs, firstCfg, firstID, firstObs, stmt))
+				out.OracleFail(id, worst(firstRegion, region(qc, ops, leaves, hasNull)), fmt.Sprintf("plan under %q returns %s, plan under %q (case %s) returns %s: %s", c.name, obs, firstCfg, firstID, firstObs, stmt))
 			}
 		}
 		out.Stat(fmt.Sprintf("distinct-plans-per-query:%d", len(seen)))
@@ -1176,6 +1222,7 @@ func run(a hx.RunArgs) error {
 				text = unaliasIn(text) // witness (5): let the analyzer unnest the NOT IN
 			}
 		}
+		w.qc.db = w.db
 		for i := 0; i < w.repeat; i++ {
 			runQuery(e, ctx, dbS, setupS, w.qc, text, w.cfgs)
 		}
@@ -1199,6 +1246,7 @@ func run(a hx.RunArgs) error {
 			e, ctx, dbS, setupS := open(db)
 			for k := 0; k < perDb; k++ {
 				qc := x.physQuery()
+				qc.db = db
 				runQuery(e, ctx, dbS, setupS, qc, (&sqlgen.Printer{Db: db}).SQL(qc.q), nil)
 			}
 			out.Stat("db:phys")
@@ -1209,12 +1257,14 @@ func run(a hx.RunArgs) error {
 		for k := 0; k < perDb; k++ {
 			if x.r.Chance(1, 12) {
 				if qc, text, ok := x.tupleNotIn(); ok {
+					qc.db = db
 					runQuery(e, ctx, dbS, setupS, qc, text, nil)
 					continue
 				}
 			}
 			mixed := x.r.Chance(1, 4)
 			qc := x.query(a.Thorough, mixed)
+			qc.db = db
 			p := &sqlgen.Printer{Db: db, AllowMixedJoinChains: mixed || qc.kind == "reorder"}
 			if mixed {
 				out.Stat("q:mixed-chain")
@@ -1407,7 +1457,36 @@ func hasLookupOp(ops []string) bool {
 	return false
 }
 
-func region(qc qcase, ops []string, hasNull bool) string {
+// leftJoins / leftJoinReplaced mirror Gms.PhysRegions.leftJoins / leftJoinReplaced: the plan has
+// fewer left outer join operators than the term has LEFT JOINs.
+func leftJoins(q *sqlgen.Query) int {
+	if q.Op != "join" {
+		return 0
+	}
+	n := leftJoins(q.L) + leftJoins(q.R)
+	if q.Kind == "left" {
+		n++
+	}
+	return n
+}
+
+func leftJoinReplaced(q *sqlgen.Query, ops []string) bool {
+	n := 0
+	for _, o := range ops {
+		if strings.HasPrefix(o, "LeftOuter") {
+			n++
+		}
+	}
+	return leftJoins(q) > n
+}
+
+func region(qc qcase, ops []string, leaves []int, hasNull bool) string {
+	if chainRegion(qc.db, joinTree(qc.q), ops, leaves) {
+		return "inner_conjunct_lost_by_conflict_rule"
+	}
+	if leftJoinReplaced(joinTree(qc.q), ops) {
+		return "left_join_replaced_by_inner_join"
+	}
 	if multiConjInnerAboveLeft(joinTree(qc.q)) && outerAboveInner(ops) {
 		return "inner_conjunct_lost_at_outer_join"
 	}
